@@ -202,6 +202,26 @@ def runOp (op : String) (args : List String) : String :=
     | some i, some e, some t => showB (validityPeriod i e t) | _, _, _ => "bad-op"
   | "spec.valid-period", [i, e, t] => match i.toInt?, e.toInt?, t.toInt? with
     | some i, some e, some t => showB (decide (i ≤ t) && decide (t ≤ e)) | _, _, _ => "bad-op"
+  | "accept", [b, qd, an, ns, ar] => match b.toNat?, qd.toNat?, an.toNat?, ns.toNat?, ar.toNat? with
+    | some b, some qd, some an, some ns, some ar =>
+      (match defaultAccept (BitVec.ofNat 16 b) qd an ns ar with
+        | .accept => "accept" | .reject => "reject" | .ignore => "ignore" | .rejectNotImpl => "notimp")
+    | _, _, _, _, _ => "bad-op"
+  | "serve", [hdrOk, b, qd, an, ns, ar, decodeOk] =>
+    match b.toNat?, qd.toNat?, an.toNat?, ns.toNat?, ar.toNat? with
+    | some b, some qd, some an, some ns, some ar =>
+      let bits := BitVec.ofNat 16 b
+      (match serveDecision (hdrOk == "1") (defaultAccept bits qd an ns ar) (unpackBits bits) (decodeOk == "1") with
+        | .invalidOnly => "invalid"
+        | .handler => "handler"
+        | .ignored => "ignored"
+        | .reply h i => s!"reply {(packBits h).toNat} {showB i}")
+    | _, _, _, _, _ => "bad-op"
+  | "mux", ds :: q :: pats =>
+    match unhex q with
+    | some q => (match muxMatch (pats.filterMap unhex) q (ds == "1") with
+        | some p => hex p | none => "none")
+    | none => "bad-op"
   | "lab.count", [t] => match unhex t with
     | some s => toString (countLabel s) | _ => "bad-op"
   | "lab.split", [t] => match unhex t with
